@@ -4,6 +4,7 @@ import (
 	"bytes"
 	"encoding/binary"
 	"fmt"
+	"math/big"
 	"math/bits"
 	"os"
 	"strconv"
@@ -331,6 +332,35 @@ func checkSkipAny(data []byte, wt plenccore.WireType) *vh.Failure {
 	return nil
 }
 
+func checkReadVarUintAny(data []byte) *vh.Failure {
+	v, n := plenccore.ReadVarUint(data)
+	// independent reading with big integers
+	val := new(big.Int)
+	end := -1
+	for i, b := range data {
+		val.Or(val, new(big.Int).Lsh(big.NewInt(int64(b&0x7f)), uint(7*i)))
+		if b&0x80 == 0 {
+			end = i + 1
+			break
+		}
+	}
+	switch {
+	case end < 0: // never terminates within the input
+		if n > 0 {
+			return vh.Fail("C18/readvaruint-disagrees", "ReadVarUint(% x) = (%d, %d) although the varint does not end within the input", data, v, n)
+		}
+	case val.BitLen() > 64 || end > 10:
+		if n > 0 {
+			return vh.Fail("C18/readvaruint-disagrees", "ReadVarUint(% x) = (%d, %d) although the encoded number %s does not fit in 64 bits", data, v, n, val)
+		}
+	default:
+		if n != end || v != val.Uint64() {
+			return vh.Fail("C18/readvaruint-disagrees", "ReadVarUint(% x) = (%d, %d), the bytes encode %s in %d bytes", data, v, n, val, end)
+		}
+	}
+	return nil
+}
+
 var c18Skip = &vh.Prop[c18SkipCase]{
 	ID: "C18", Name: "skip",
 	Gen: func(t *rapid.T) c18SkipCase {
@@ -358,6 +388,17 @@ var c18Skip = &vh.Prop[c18SkipCase]{
 		}
 		for w := 0; w <= 7; w++ {
 			if f := checkSkipAny(c.Random, plenccore.WireType(w)); f != nil {
+				return f
+			}
+		}
+		// ReadVarUint on arbitrary bytes against an arbitrary-precision reading of the same bytes: a varint
+		// that does not fit in 64 bits (or does not end) is not a value; one that fits is that value, padded or not
+		if f := checkReadVarUintAny(c.Random); f != nil {
+			return f
+		}
+		if len(c.Random) >= 2 {
+			ten := append(bytes.Repeat([]byte{c.Random[0] | 0x80}, 9), c.Random[1]&0x7f) // ten bytes, the last one arbitrary
+			if f := checkReadVarUintAny(ten); f != nil {
 				return f
 			}
 		}
